@@ -31,7 +31,7 @@ func init() { props["C13"] = runC13 }
 
 const (
 	c13Wait  = 2 * time.Second        // something that must happen
-	c13Block = 350 * time.Millisecond // something that happens unless the implementation is blocked
+	c13Block = 500 * time.Millisecond // something that happens unless the implementation is blocked
 )
 
 type c13nop struct{}
@@ -302,9 +302,6 @@ func (w *c13world) startSub(c int, sig uint32, h int) *c13sub {
 		s.regMid, s.waitReg = f.Hdr.ID, true
 		w.lab("LCount %d", s.idx)
 		w.lab("LSendReg %d %d", s.idx, h)
-		if !w.driven {
-			w.finishCall(cl, s)
-		}
 	}
 	return s
 }
@@ -437,17 +434,6 @@ func (w *c13world) emitSnap(sig uint32, p uint32) {
 		close(done)
 	}()
 	w.lab("LEmitSnap %d %d", sig, p)
-	if !w.driven {
-		<-done
-		for c, cl := range w.clients {
-			for _, f := range cl.c.Down.Frames() {
-				if f.Hdr.Type == net.Event && c13val(f.Payload) == p && f.Hdr.Action == sig {
-					e.written[c] = true
-				}
-			}
-		}
-		return
-	}
 	w.n.WaitFor(c13Wait, func() bool { _, b := w.blockedEvent(); return b || w.emitReturned() })
 	_, b := w.blockedEvent()
 	w.emitBusy = b
@@ -634,19 +620,8 @@ func (w *c13world) startCancel(s *c13sub) {
 		}
 		s.unregMid, s.waitUnreg = f.Hdr.ID, true
 		w.lab("LSendUnreg %d", s.idx)
-		if !w.driven {
-			w.finishCall(cl, s)
-		}
 	default:
 		w.finishCancel(s)
-	}
-}
-
-// finishCall (free-running worlds only): the call completes by itself.
-func (w *c13world) finishCall(cl *c13client, s *c13sub) {
-	if s.waitReg {
-		<-s.done
-		w.afterReturn(s)
 	}
 }
 
